@@ -222,7 +222,7 @@ def mul_queries():
     qs.append(mulq(31, "MULADD", 5, extra=MOD, tag="-mod", backend="kissat", what="br_i31_muladd_small == (x*2^31 + z) mod m, every m of exactly 5 bits"))
     # multi-word path (quotient estimate from the top words, +-1 correction): bounded to moduli whose low word is nearly fixed
     for w, bl, ml, tier in ((15, 16, 2, "quick"), (15, 17, 2, "quick"), (15, 18, 1, "quick"), (15, 20, 1, "thorough"),
-                            (31, 32, 1, "quick"), (31, 33, 1, "quick"), (32, 33, 1, "thorough"), (32, 34, 1, "thorough")):
+                            (31, 32, 1, "quick"), (31, 33, 1, "quick"), (32, 33, 1, "quick"), (32, 34, 1, "quick")):
         qs.append(mulq(w, "MULADD", bl, extra=["-DMLOWBITS=%d" % ml], tag="-ml%d" % ml, backend="kissat", tier=tier,
                        what="br_%s_muladd_small, two-word modulus of exactly %d bits (estimate-and-correct path), bounded: low word of m < 2^%d; every x < m, every z" % (PFX[w], bl, ml)))
     # every modulus of the given length, bounded quotient (x*2^W + z = Q*m + R0 with Q < 2^QBITS, every R0 < m):
@@ -233,6 +233,9 @@ def mul_queries():
                                    (32, 33, 2, [], "quick"), (32, 40, 2, [], "quick"), (32, 64, 2, [], "quick"), (32, 40, 3, [], "thorough")):
         qs.append(mulq(w, "MULADD", bl, extra=["-DQBITS=%d" % qb] + extra, tag="-q%d%s" % (qb, "-altenc" if extra else ""), backend="kissat", tier=tier,
                        what="br_%s_muladd_small, every modulus of exactly %d bits (multi-word estimate-and-correct path), every remainder; bounded: quotient (x*2^%d+z)/m < 2^%d" % (PFX[w], bl, w, qb)))
+    # (the other end of the quotient range, -DQHIGH=1: quotient within 2^2 of 2^W - 1, gave no verdict in 240/900 s for any
+    # variant on kissat; the top-words-equal branch of the estimate is reached by the *-ml* queries above, which are in the
+    # quick tier for that reason - seeded change C10e)
     qs.append(mulq(15, "MULADD", 8, backend="kissat", tier="thorough", what="br_i15_muladd_small, every m of exactly 8 bits (operand = Q*m + R0 formulation)"))
     qs.append(mulq(15, "TMONT", 5, extra=MOD, tag="-mod", backend="kissat", what="br_i15_to_monty == x*2^15 mod m, m of exactly 5 bits"))
     qs.append(mulq(15, "TMONT", 8, backend="kissat", what="br_i15_to_monty == x*2^15 mod m, m of exactly 8 bits"))
